@@ -10,6 +10,7 @@ from fam_error import ErrorFamily
 from fam_data import DataFamily, IsolationFamily
 from fam_timeout import TimeoutFamily
 from fam_ack import AckFamily
+from fam_gen import GenFamily
 
 FLOW = FlowFamily()
 ACTIONS = ActionsFamily()
@@ -22,6 +23,7 @@ DATA = DataFamily()
 DATAISO = IsolationFamily()
 TIMEOUT = TimeoutFamily()
 ACK = AckFamily()
+GEN = GenFamily()
 
 QUIESCENT = ['cur-fifo', 'cur-chaos', 'cur-chaos-lifo', 'mt2-chaos', 'mt4-chaos', 'mt8']
 ALLSCHED = QUIESCENT + ['cur-inline', 'mt2-inline']
@@ -32,6 +34,15 @@ def part(name, family, quick, thorough, monitors=(), judge=False, props=None, **
 
 
 PROPS = {
+    'C16': {
+        'level': 'exploration',
+        'rule': 'distinct generator models with a non-empty list (kind, list, inner acts, nesting), distinct hook placements with at least one hook, distinct push scripts',
+        'parts': [
+            part('gen', GEN, 1200, 30000, judge=True, props=['C16'], sub='gen', chunk=80),
+            part('hooks', GEN, 800, 20000, judge=True, props=['C16'], sub='hooks', chunk=80),
+            part('push', GEN, 300, 6000, judge=True, props=['C16'], sub='push', chunk=40),
+        ],
+    },
     'C09': {
         'level': 'exploration',
         'rule': 'distinct (model, ack rules, op script with tick spacings / redo / clear / actions, retry limit, interval, store) cases',
